@@ -43,6 +43,7 @@ class Budget(BaseException):
 class Counters:
     ops = 0
     work = 0
+    taken = 0          # bytes the multipart code took from the stream (minus what it pushed back)
     ops_cap = 10 ** 9
     work_cap = 10 ** 9
 
@@ -68,11 +69,21 @@ def counted_stream_cls() -> Any:
 
         async def read(self, n: int = -1) -> bytes:
             self._tick()
-            return await super().read(n)
+            r = await super().read(n)
+            CNT.taken += len(r)
+            return r
 
         async def readuntil(self, separator: bytes = b"\n", *, max_size: Optional[int] = None) -> bytes:
             self._tick()
-            return await super().readuntil(separator, max_size=max_size)
+            before = self._cursor
+            try:
+                return await super().readuntil(separator, max_size=max_size)
+            finally:
+                CNT.taken += self._cursor - before      # also what a failed (too long) line consumed
+
+        def unread_data(self, data: bytes) -> None:
+            CNT.taken -= len(data)
+            super().unread_data(data)
 
         async def readany(self) -> bytes:
             self._tick()
@@ -208,8 +219,8 @@ def has_crlf(spec: dict) -> bool:
     for p in spec["parts"]:
         for k in ("name", "filename", "ctype"):
             v = p.get(k)
-            if v and ("\r" in v or "\n" in v or "\x00" in v):
-                return True
+            if v and any(ord(c) < 0x20 and c != "\t" or ord(c) == 0x7F for c in v):
+                return True            # CR, LF, NUL and the other controls may (must, for CR/LF) be refused
         for hk, hv in p.get("headers", []):
             if any(c in hk + hv for c in "\r\n\x00"):
                 return True
@@ -425,9 +436,9 @@ class Session:
                         self.items(v.encode("utf-8", "surrogateescape"))])
         return out
 
-    def log_next(self, lvl: int, res: str, part: Any = None, err: str = "") -> None:
+    def log_next(self, lvl: int, res: str, part: Any = None, err: str = "", use: Tuple[bool, int, int] = (False, 0, 0)) -> None:
         e = {"ev": "next", "lvl": lvl, "res": res, "hdrs": [], "name": NO, "filename": NO, "err": err,
-             "fed": self.fed}
+             "fed": self.fed, "hb": use[0], "nops": use[1], "ntaken": use[2]}
         if part is not None:
             e["hdrs"] = self.hdr_items(part.headers)
             if res == "part":
@@ -455,6 +466,11 @@ class Session:
                 e["cmsapi"] = True
                 e["kind"] = "dec"
                 out += await part.read(decode=True)
+            elif api in ("text", "json", "form"):
+                # buffering helpers on top of read(decode=True): same size limit, result not compared
+                e["cmsapi"] = True
+                e["kind"] = "decvoid"
+                await getattr(part, api)()
             elif api in ("chunks", "chunks_decode", "iter_decode", "while_chunk"):
                 e["kind"] = "raw" if api in ("chunks", "while_chunk") else "dec"
                 e["chunkwise"] = e["kind"] == "dec"
@@ -512,24 +528,32 @@ class Session:
 
     async def consume(self, reader: Any, lvl: int) -> None:
         from aiohttp.multipart import MultipartReader
+        prev: Any = None
         while True:
+            # this next() reads one delimiter line and one header block only (hb) when the previous
+            # part of this reader was consumed completely; its awaits and bytes are then bounded by
+            # max_headers / max_field_size whatever the input is
+            hb = prev is not None and bool(prev.at_eof())
+            o0, t0 = CNT.ops, CNT.taken
             try:
                 part = await reader.next()
             except (Budget, MachineryError):
                 raise
             except Exception as exc:  # noqa: BLE001
-                self.log_next(lvl, "err", err=classify_exc(exc))
+                self.log_next(lvl, "err", err=classify_exc(exc), use=(hb, CNT.ops - o0, CNT.taken - t0))
                 raise Stop()
+            use = (hb, CNT.ops - o0, CNT.taken - t0)
+            prev = part
             if part is None:
-                self.log_next(lvl, "none")
+                self.log_next(lvl, "none", use=use)
                 return
             if isinstance(part, MultipartReader):
-                self.log_next(lvl, "multi", part)
+                self.log_next(lvl, "multi", part, use=use)
                 if lvl >= 2 or self.sess.get("skipinner"):
                     continue
                 await self.consume(part, lvl + 1)
                 continue
-            self.log_next(lvl, "part", part)
+            self.log_next(lvl, "part", part, use=use)
             api = self.pick_api()
             if api != "skip":
                 await self.read_part(part, lvl, api)
@@ -589,10 +613,12 @@ class Session:
         total = sum(len(s) for s in self.segs)
         CNT.ops = 0
         CNT.work = 0
+        CNT.taken = 0
         CNT.ops_cap = 40 * total + 20000
         CNT.work_cap = 200 * total + 400000
         s = dict(self.sess)
         s["ev"] = "session"
+        s["linecap"] = 2 * STREAM_LIMIT          # StreamReader.readline() default limit (high-water mark)
         s["seg"] = max([len(x) for x in self.segs] + [1]) if not self.burst else max(total, 1)
         self.ev.append(s)
         task = loop.create_task(self.main(stream))
@@ -950,6 +976,34 @@ def driver_names(ctx: Ctx, loop: steploop.StepLoop) -> List[Body]:
                             "cms": 0 if api == "post" else -1, "script": "whole"}
                     run_session(loop, bd, sess, [bd.body], rng)
             bodies.append(bd)
+    bodies += names_structural(ctx, loop, rng)
+    return bodies
+
+
+def names_structural(ctx: Ctx, loop: steploop.StepLoop, rng: random.Random) -> List[Body]:
+    """Field names / filenames over the code point classes crossed with the structural characters
+    of a Content-Disposition parameter (';', '"', '\\', '=', SP, '%', controls ...), each in every
+    position and in ordered pairs, quote_fields True and False: the value comes back exactly (or
+    percent-encoded), or the writer refuses it."""
+    bodies: List[Body] = []
+    strings = G.structural_names(rng, ctx.quick, sample=40)
+    kinds = ("formdata",) if ctx.quick else ("formdata", "form", "mixed")
+    for n, sname in enumerate(strings):
+        for quote in (True, False):
+            if ctx.quick and n >= 62 and quote != (n % 2 == 0):      # sampled pairs: one quoting mode each
+                continue
+            for which in ("name", "filename"):
+                kind = kinds[n % len(kinds)]
+                p = leaf(b"v", name=sname) if which == "name" else leaf(b"v", name="n", filename=sname)
+                spec = {"kind": kind, "boundary": "nb", "quote": quote, "parts": [p, leaf(b"after", name="z")]}
+                bd = write_body(loop, spec, f"names2:{which}:{int(quote)}:{kind}:{n}")
+                if bd.body:
+                    apis = ["read"] + (["post"] if kind != "mixed" and (n % 3 == 0 or not ctx.quick) else [])
+                    for api in apis:
+                        sess = {"api": api, "strict": False, "chunk": 8192, "mfs": 8190, "mh": 128,
+                                "cms": 0 if api == "post" else -1, "script": "whole"}
+                        run_session(loop, bd, sess, [bd.body], rng)
+                bodies.append(bd)
     return bodies
 
 
@@ -984,16 +1038,19 @@ def driver_termination(ctx: Ctx, loop: steploop.StepLoop, table: List[Any]) -> L
     rng = sub_rng(ctx, "term")
     bodies: List[Body] = []
     k = 0
-    for spec, base in base_bodies(ctx, loop, table, rng):
+    for nbase, (spec, base) in enumerate(base_bodies(ctx, loop, table, rng)):
         bnd = base.boundary
         uselen = base.uselen
         muts = G.mutations(base.body, bnd, rng)
         muts.append(("valid", base.body))
         for label, data in muts:
+            hostile = label.startswith("hdr")
+            if hostile and ctx.quick and (nbase % 5 not in (0, 1, 4) or nbase >= 5 or label.startswith("hdr0")):
+                continue
             bd = input_body(data, bnd, uselen, base.ctype, f"term:{label}", label)
             mc = min_chunk(bnd)
             apis = TERM_APIS if uselen else [a for a in TERM_APIS]
-            n_api = ctx.pick(2, 5)
+            n_api = 0 if (hostile and ctx.quick) else ctx.pick(2, 5)
             for api in rng.sample(apis, n_api):
                 scripts = [("whole", [data] if data else [], False)]
                 if len(data) <= 600 and rng.random() < ctx.pick(0.3, 1.0):
@@ -1005,6 +1062,17 @@ def driver_termination(ctx: Ctx, loop: steploop.StepLoop, table: List[Any]) -> L
                     sess = {"api": api, "strict": True, "chunk": rng.choice([mc, mc + 1, 8192, 37 + mc]),
                             "mfs": 8190, "mh": 128, "cms": 0 if api == "post" else -1, "script": sl}
                     run_session(loop, bd, sess, segs, rng, burst=burst)
+            if label.startswith("hdr"):
+                # hostile header block: every API that consumes the previous part completely, several
+                # segmentations, default and small limits - one next() must stay within HeaderBlockBound
+                for api, (sl, segs), (mh, mfs) in list(zip(("read", "release", "chunks", "lines", "read", "release"),
+                                                     (("whole", [data]), ("fixed97", G.fixed_segments(data, 97)),
+                                                      ("rand", G.random_segments(data, rng, 11)),
+                                                      ("fixed4096", G.fixed_segments(data, 4096)),
+                                                      ("fixed97", G.fixed_segments(data, 97)), ("whole", [data])),
+                                                     ((128, 8190), (4, 64), (128, 8190), (128, 8190), (4, 64), (16, 200))))[: ctx.pick(3, 6)]:
+                    sess = {"api": api, "strict": True, "chunk": 8192, "mfs": mfs, "mh": mh, "cms": -1, "script": sl}
+                    run_session(loop, bd, sess, segs, rng)
             bodies.append(bd)
             k += 1
         # EOF at every position of the valid body
@@ -1108,7 +1176,7 @@ def shaped(parts: List[dict], shape: str) -> dict:
         return {"kind": "mixed", "boundary": "lim", "parts": parts}
     inner = {"kind": "form" if shape == "nest-form" else "mixed", "boundary": "inn", "parts": parts}
     return {"kind": "mixed", "boundary": "lim",
-            "parts": [leaf(b"pre", headers=[("X-Pre", "1")]), {"inner": inner}, leaf(b"post")]}
+            "parts": [leaf(b'"pre"', headers=[("X-Pre", "1")]), {"inner": inner}, leaf(b'"post"')]}
 
 
 def limits_in_shapes(ctx: Ctx, loop: steploop.StepLoop, rng: random.Random) -> List[Body]:
@@ -1181,12 +1249,35 @@ def limits_in_shapes(ctx: Ctx, loop: steploop.StepLoop, rng: random.Random) -> L
                     if bd.body:
                         drive(bd, ("read_decode", "read"), cms=cms, seg_list=[13])
                     bodies.append(bd)
+    # (e) compressed parts whose DECODED size crosses client_max_size by one byte, by one
+    #     decompression block and by many blocks: the limit applies to the running total, for every
+    #     API built on read(decode=True)
+    from aiohttp.helpers import DEFAULT_CHUNK_SIZE as block      # = BodyPartReader max_decompress_size
+    for cms in ctx.pick([block], [65536, block, 4 * block]):
+        for n in (cms - 1, cms, cms + 1, cms + 65536, cms + block, cms + 8 * block):
+            for ce in ("gzip", "deflate"):
+                for shape in ("flat-mixed", "nest-mixed"):
+                    if ctx.quick and (shape == "nest-mixed") != (ce == "deflate"):
+                        continue
+                    content = b'"' + z * (n - 2) + b'"'            # valid text, JSON and form data
+                    parts = [leaf(content, ce=ce, ctype="application/json"), leaf(b'"t"', ctype="application/json")]
+                    bd = write_body(loop, shaped(parts, shape), f"lim:dtotal:{cms}:{n - cms}:{ce}:{shape}")
+                    if bd.body:
+                        for api, seg in (("read_decode", 0), ("text", 0), ("json", 29), ("form", 0), ("read", 29)):
+                            sess = {"api": api, "strict": False, "chunk": 8192, "mfs": 8190, "mh": 128, "cms": cms,
+                                    "script": f"fixed{seg}" if seg else "whole"}
+                            run_session(loop, bd, sess, G.fixed_segments(bd.body, seg) if seg else [bd.body], rng)
+                    bodies.append(bd)
     return bodies
 
 
 # ---------------------------------------------------------------- judging
 # Deviations of the unchanged tree that the trace spec names with a clause of their own.
 DEVIATIONS = {
+    "NameQuoteBeforeSemicolon": "a field name / filename containing '\"' followed (after optional blanks) by ';' is cut at the "
+                                "';' by parse_content_disposition (the header is split on every ';', quoted or not)",
+    "NameMultiSemicolon": "a field name / filename containing two or more ';' inside its quoted value makes "
+                          "parse_content_disposition drop the whole header: name and filename come back as None",
     "DecodeChunkwisebase64": "read_chunk() hands out a partial base64 quartet when the transport delivered fewer than "
                              "4 characters, so decode(chunk) / request.post() raise binascii.Error",
     "DecodeChunkwisequoted-printable": "read_chunk() cuts a quoted-printable escape or soft line break at a chunk edge, "
